@@ -203,7 +203,7 @@ func (vc *VC) applyContract(con *Contract, key string, names []string, args []SV
 		env.vars[a] = mkInt(vc.newObj())
 	}
 	for _, l := range con.Lets {
-		env.vars[l.Name] = vc.eval(l.E, env)
+		env.vars[l.Name] = vc.nameQuantLet(l.Name, vc.eval(l.E, env))
 	}
 	for _, r := range con.Requires {
 		o := vc.oblige("requires", R, vc.evalBool(r.E, env), pos, fmt.Sprintf("precondition %d of %s: %s", r.Ord, shortFuncName(key), r.Text))
